@@ -188,13 +188,15 @@ pub enum GenericIfData {
 // tokenize()
 // Tokenize the text of the a2ml section
 fn tokenize_a2ml(filename: &Filename, input: &str) -> Result<(Vec<TokenType>, String), String> {
-    tokenize_a2ml_nested(filename, input, 0)
+    let mut include_count = 0;
+    tokenize_a2ml_nested(filename, input, 0, &mut include_count)
 }
 
 fn tokenize_a2ml_nested(
     filename: &Filename,
     input: &str,
     include_depth: usize,
+    include_count: &mut usize,
 ) -> Result<(Vec<TokenType>, String), String> {
     let mut amltokens = Vec::<TokenType>::new();
     let input_bytes = input.as_bytes();
@@ -241,7 +243,7 @@ fn tokenize_a2ml_nested(
             // copy any uncopied text before the include token
             complete_string.push_str(&input[copypos..startpos]);
             let (mut tokresult, incfile_text) =
-                tokenize_include(filename, input, &mut bytepos, include_depth)?;
+                tokenize_include(filename, input, &mut bytepos, include_depth, include_count)?;
             complete_string.push_str(&incfile_text);
             if !incfile_text.ends_with('\n') {
                 // the include directive stands for the tokens of the included file. Without a line break
@@ -333,6 +335,7 @@ fn tokenize_include(
     input: &str,
     bytepos: &mut usize,
     include_depth: usize,
+    include_count: &mut usize,
 ) -> Result<(Vec<TokenType>, String), String> {
     let input_bytes = input.as_bytes();
     let datalen = input_bytes.len();
@@ -397,9 +400,22 @@ fn tokenize_include(
             incpathref.display()
         ));
     }
+    // the nesting limit alone does not bound the work, if each file includes the next one more than once
+    *include_count += 1;
+    if *include_count > tokenizer::MAX_INCLUDED_FILES {
+        return Err(format!(
+            "too many files are included while reading {}",
+            incpathref.display()
+        ));
+    }
     let loadresult = loader::load(incpathref);
     if let Ok(incfiledata) = loadresult {
-        tokenize_a2ml_nested(&Filename::from(incpathref), &incfiledata, include_depth + 1)
+        tokenize_a2ml_nested(
+            &Filename::from(incpathref),
+            &incfiledata,
+            include_depth + 1,
+            include_count,
+        )
     } else {
         Err(format!("failed reading {}", incpathref.display()))
     }
